@@ -40,6 +40,13 @@ func (W) Gen(prop string, seed uint64, tier string) *world.Plan {
 	p.Sched.FaultKinds = map[string][]int{"mmap": {simcore.FaultEACCES, simcore.FaultENOMEM}}
 	p.Sched.MaxFaults = 1 << 20
 	p.Sched.MaxSteps = 200000
+	if mm > 0 && r.Chance(150) {
+		// separate configuration: stub.Write on the reserve path goes through memory.WriteTo, whose
+		// mprotect calls may fail too; the request is then allowed to fail, never to corrupt
+		p.Sched.FaultPermille["mprotect"] = 60
+		p.Sched.FaultKinds["mprotect"] = []int{simcore.FaultEACCES, simcore.FaultENOMEM}
+		p.Knobs["mprot"] = 1
+	}
 	big := r.Chance(300) // larger requests: exhaustion is reached
 	for t := 0; t < k; t++ {
 		var ops []world.Op
@@ -186,6 +193,10 @@ func (W) Exec(p *world.Plan, env *world.Env) {
 			}
 		}
 		handed = append(handed, r)
+		if rc.writeErr != nil && p.Knobs["mprot"] == 1 {
+			env.Probe("write_failed_under_mprotect_fault")
+			continue
+		}
 		if rc.writeErr != nil {
 			env.Res.At = fmt.Sprintf("requester %d size %d", r.task, r.n)
 			env.FailNoUnwind("space/not-writable", "stub.Write into region [%#x,+%d) failed: %v", r.addr, r.n, rc.writeErr)
@@ -222,9 +233,11 @@ func (W) Exec(p *world.Plan, env *world.Env) {
 		env.FailNoUnwind("space/overrun", "%s", msg)
 		return
 	}
-	if msg := env.Image.CheckPages(false); msg != "" {
-		env.FailNoUnwind("pages/writable", "%s", msg)
-		return
+	if p.Knobs["mprot"] != 1 {
+		if msg := env.Image.CheckPages(false); msg != "" {
+			env.FailNoUnwind("pages/writable", "%s", msg)
+			return
+		}
 	}
 	env.Res.Nontriv = res.Stats.Switches > 0 || len(res.Stats.Faults) > 0
 	_ = syscall.EACCES
